@@ -214,7 +214,7 @@ func c03ReplyVerbatim(p *Prog, r *Report) {
 	var bad []string
 	found := false
 	for fn := range replyFuncs(p, req) {
-		for _, f := range withClosures(fn) {
+		for _, f := range withSenders(p, fn) {
 			eachCall(f, func(c ssa.CallInstruction) {
 				cm := c.Common()
 				if cm.IsInvoke() && cm.Method.Name() == "EncodeRawFrame" {
@@ -228,6 +228,13 @@ func c03ReplyVerbatim(p *Prog, r *Report) {
 						case *ssa.FreeVar:
 							_ = x
 							okSrc = true
+						default:
+							// a field of a named sender object: what the reply function put there
+							if src := senderFieldSource(fn, o); src != nil {
+								if _, isPar := src.(*ssa.Parameter); isPar {
+									okSrc = true
+								}
+							}
 						}
 					}
 					if !okSrc {
@@ -261,7 +268,7 @@ func c03ReplyVerbatim(p *Prog, r *Report) {
 	rr := requestRoles(p)
 	local := map[*ssa.Function]bool{}
 	for fn := range replyFuncs(p, req) {
-		for _, f := range withClosures(fn) {
+		for _, f := range withSenders(p, fn) {
 			eachCall(f, func(c ssa.CallInstruction) {
 				if cm := c.Common(); cm.IsInvoke() && cm.Method.Name() == "EncodeFrame" {
 					local[fn] = true
